@@ -123,22 +123,23 @@ func pkgNoPanic(callee *ssa.Function, full string) bool {
 }
 
 type boundsRun struct {
-	c           *Ctx
-	P           *Prog
-	A           *Aff
-	rule        string
-	reach       map[*ssa.Function]bool
-	roots       []*ssa.Function
-	fns         []*ssa.Function
-	loadRep     map[string]ssa.Value
-	stableField map[*types.Var]bool
-	fieldNonNil map[*types.Var]int // 0 unknown, 1 yes, 2 no
-	derefParams map[*ssa.Function]map[int]bool
-	requires    map[*ssa.Function]func(call ssa.CallInstruction) []Con // what the call site must establish
-	stats       map[string]int
-	external    map[string]int
-	hdr         *headerLemma
-	ldone       *pipeline // non-nil when lemma L-done holds
+	c             *Ctx
+	P             *Prog
+	A             *Aff
+	rule          string
+	reach         map[*ssa.Function]bool
+	roots         []*ssa.Function
+	fns           []*ssa.Function
+	loadRep       map[string]ssa.Value
+	stableField   map[*types.Var]bool
+	fieldNonNil   map[*types.Var]int // 0 unknown, 1 yes, 2 no
+	derefParams   map[*ssa.Function]map[int]bool
+	requires      map[*ssa.Function]func(call ssa.CallInstruction) []Con // what the call site must establish
+	stats         map[string]int
+	external      map[string]int
+	hdr           *headerLemma
+	ldone         *pipeline                  // non-nil when lemma L-done holds
+	sortLessSlice map[*ssa.FreeVar]ssa.Value // captured slice of a sort.Slice callback -> representative load
 	// lite mode (runBoundsLite): only obligations of these kinds, only in functions accepted by fnOK
 	kinds map[string]bool
 	fnOK  func(*ssa.Function) bool
@@ -212,6 +213,14 @@ func (b *boundsRun) equate(v ssa.Value) ssa.Value {
 	}
 	if ia, ok := u.X.(*ssa.IndexAddr); ok {
 		return b.equateElem(u, ia)
+	}
+	if fv, ok := u.X.(*ssa.FreeVar); ok {
+		// loads of a captured variable inside a comparison callback of sort.Slice: the slice is not
+		// reassigned while the callback runs (the callback itself does not store to it)
+		if rep := b.sortLessSlice[fv]; rep != nil {
+			return rep
+		}
+		return v
 	}
 	fa, ok := u.X.(*ssa.FieldAddr)
 	if !ok {
@@ -781,8 +790,67 @@ func negateCmp(op token.Token) token.Token {
 
 // ---- main pass ------------------------------------------------------------------------
 
+// installSortContracts: for every `sort.Slice(s, func(i, j int) bool {...})` whose callback captures exactly the
+// variable that holds s and does not store to it, assume 0 <= i, j < len(s) at the callback's entry.
+func (b *boundsRun) installSortContracts() {
+	b.sortLessSlice = map[*ssa.FreeVar]ssa.Value{}
+	for _, fn := range b.fns {
+		eachInstr(fn, func(ins ssa.Instruction) {
+			call, ok := ins.(*ssa.Call)
+			if !ok || len(call.Call.Args) != 2 {
+				return
+			}
+			f := call.Call.StaticCallee()
+			if f == nil || (calleeFullName(f) != "sort.Slice" && calleeFullName(f) != "sort.SliceStable") {
+				return
+			}
+			mc, ok := call.Call.Args[1].(*ssa.MakeClosure)
+			if !ok {
+				return
+			}
+			less, ok := mc.Fn.(*ssa.Function)
+			if !ok || len(less.Params) != 2 {
+				return
+			}
+			a0 := call.Call.Args[0]
+			if mi, ok := a0.(*ssa.MakeInterface); ok {
+				a0 = mi.X
+			}
+			ld, ok := a0.(*ssa.UnOp)
+			if !ok || ld.Op != token.MUL {
+				return
+			}
+			for k, bnd := range mc.Bindings {
+				if bnd != ld.X || k >= len(less.FreeVars) {
+					continue
+				}
+				fv := less.FreeVars[k]
+				stored := false
+				var rep ssa.Value
+				eachInstr(less, func(i2 ssa.Instruction) {
+					if st, ok := i2.(*ssa.Store); ok && st.Addr == ssa.Value(fv) {
+						stored = true
+					}
+					if u, ok := i2.(*ssa.UnOp); ok && u.Op == token.MUL && u.X == ssa.Value(fv) && rep == nil {
+						rep = u
+					}
+				})
+				if stored || rep == nil {
+					continue
+				}
+				b.sortLessSlice[fv] = rep
+				for _, p := range less.Params {
+					b.A.Assume[less] = append(b.A.Assume[less], GE(b.A.Lin(p), LinConst(0)), LT(b.A.Lin(p), b.A.LenOf(rep)))
+				}
+				b.c.Lemmas = append(b.c.Lemmas, "sort.Slice contract: the comparison callback "+b.P.FnKey(less)+" is called with 0 <= i, j < len(slice) (assumed at its entry)")
+			}
+		})
+	}
+}
+
 func (b *boundsRun) run() {
 	b.installRequires()
+	b.installSortContracts()
 	b.recursionCheck()
 	for _, fn := range b.fns {
 		if fn.Blocks == nil || (b.fnOK != nil && !b.fnOK(fn)) {
@@ -1117,6 +1185,32 @@ func (b *boundsRun) checkCall(fn *ssa.Function, ci ssa.CallInstruction, mk func(
 		return
 	}
 	full := calleeFullName(callee)
+	if (full == "sort.Slice" || full == "sort.SliceStable") && len(cc.Args) == 2 {
+		// sort.Slice(x, less) panics only if x is not a slice; less is called with 0 <= i, j < len(x).
+		// When less is a function literal over the captured variable that holds x, its index
+		// obligations are discharged under that contract (installed before the functions are walked).
+		a0 := cc.Args[0]
+		if mi, ok := a0.(*ssa.MakeInterface); ok {
+			a0 = mi.X
+		}
+		if _, isSlice := a0.Type().Underlying().(*types.Slice); isSlice {
+			b.external[full]++
+			b.ok("requires", mk("requires", "sort.Slice(slice)"), pos, "the first argument is a slice")
+		} else {
+			b.fail("requires", mk("requires", "sort.Slice(slice)"), pos, "unproven", "sort.Slice panics unless its first argument is a slice")
+		}
+		return
+	}
+	if full == "(*strings.Builder).Grow" && len(cc.Args) == 2 {
+		// panics for a negative count only
+		if b.A.Prove(ci.Block(), GE(b.A.Lin(cc.Args[1]), LinConst(0))) {
+			b.external[full]++
+			b.ok("requires", mk("requires", "Builder.Grow(n>=0)"), pos, "the capacity hint is proved non-negative")
+		} else {
+			b.fail("requires", mk("requires", "Builder.Grow(n>=0)"), pos, "unproven", "strings.Builder.Grow panics for a negative count; the argument is not proved non-negative")
+		}
+		return
+	}
 	if why, ok := noPanicAllow[full]; ok {
 		b.external[full]++
 		b.stats["external:allowed"]++
